@@ -122,6 +122,31 @@ CHECKS["C20"] = ("TLC exhaustive enumeration of the location decision table (Loc
     "/metrics scan.",
     "DESIGN.md section 4 C20")
 
+CHECKS["C01"] = ("TLC exhaustive check of CipherList.tla (snapshot two-pass order, in-flight lookups across Update, stale Mark) + TLC-simulated "
+    "behaviours executed over real TCP with real AEAD encryption through the real authenticator behind a recording/gating CipherList "
+    "wrapper; traces judged by CipherListTrace.tla",
+    "The key list and the trial-decryption search are specified with in-flight lookups that hold a snapshot while the list is updated "
+    "or re-ordered; TLC checks Sound, Complete, SnapshotIsPermutation, NoAuthNoEffect, InvalidRefused for 2-3 slots, duplicate "
+    "secrets, mixed cipher classes, 2 IPs, concurrent lookups and Updates. Simulated behaviours run against "
+    "NewShadowsocksStreamAuthenticator/NewStreamHandler over loopback with all four ciphers, client source IPs 127.0.0.2.., lists "
+    "padded with 0/50/300 keys, and opener classes valid / wrong key / random / bit flips in salt, length, tag / short+FIN / "
+    "short+stall; dials, bytes to the client and metrics calls are recorded. The verdict comes from the property layer only; exact "
+    "snapshot order is compared as drift.",
+    "'All opening byte strings' are covered by classes x seeds; AEAD forgery resistance is assumed.",
+    "DESIGN.md section 4 C01")
+CHECKS["C08"] = ("TLC exhaustive check of TcpAuth.tla (authenticator order, marked/unmarked salt generators, reflected handshakes with cache nil / 0 / "
+    "on) + behaviours on the real authenticator with recorded REAL server output presented back as client input; independent "
+    "HKDF/HMAC verification of the salt mark; traces judged by TcpAuthTrace.tla",
+    "TcpAuth.tla models findAccessKey -> IsServerSalt -> replay cache -> reader/writer and the per-key salt generator class; TLC "
+    "checks RespSaltsFresh, RespSaltsRecognised, ReflectedNeverAuthenticated (whatever the cache capacity), StatusClasses, "
+    "ProbeNoEffect. On the code, the first salt of every response stream is captured and its mark verified by an independent "
+    "HKDF-SHA1/HMAC-SHA1 implementation; recorded server output (whole, truncated, extended) and client streams under a "
+    "server-made salt are presented with the cache off and on and must end as ERR_REPLAY_SERVER with probe observables; thousands "
+    "of response salts are checked pairwise distinct (10^5 in thorough).",
+    "Freshness is checked as pairwise distinctness over the run (randomness itself is assumed). AES-128 (16-byte salt) is only in the "
+    "freshness clause, by the property's wording.",
+    "DESIGN.md section 4 C08")
+
 PENDING = {}
 
 def main():
